@@ -258,9 +258,26 @@ func simC19Walk(c *Ctx) {
 	seen := map[int]int{}
 	var order []int
 	halted := false
+	type keptPath struct {
+		p   cty.Path
+		key string
+	}
+	var kept []keptPath // copies the callback keeps beyond its return (Path.Copy promises they are its own)
+	checkKept := func(what string) {
+		for _, k := range kept {
+			if now := renderPath(k.p); now != k.key {
+				c.Fail("C19", "kept-path-changed", "kept-path-changed:"+what, "a copy (Path.Copy) of the path %s reported, kept by the callback, reads %q after the traversal went on: it was %q", what, now, k.key)
+			}
+		}
+		if len(kept) > 0 {
+			c.Fired("cb.retain-copy")
+		}
+		kept = nil
+	}
 	err := cty.Walk(root, func(p cty.Path, v cty.Value) (bool, error) {
 		pc := p.Copy()
 		key := renderPath(pc)
+		kept = append(kept, keptPath{pc, key})
 		i, ok := byKey[key]
 		if halted {
 			c.Fail("C19", "walk-after-error", "walk-after-error", "Walk called the callback again (path %s) after the callback had returned an error", key)
@@ -312,6 +329,7 @@ func simC19Walk(c *Ctx) {
 	if fp(root) != rootFP {
 		c.Fail("C19", "walk-mutated", "walk-mutated", "walking changed the value")
 	}
+	checkKept("Walk")
 	c.Event("walk mode %d visited %d of %d", mode, len(order), len(nodes))
 
 	// ---- Transform
@@ -463,6 +481,7 @@ func simC19Walk(c *Ctx) {
 		tr := &c19Transformer{
 			enter: func(p cty.Path, v cty.Value) (cty.Value, error) {
 				key := renderPath(p)
+				kept = append(kept, keptPath{p.Copy(), key})
 				i, ok := byKey[key]
 				if !ok {
 					c.Fail("C19", "transform-foreign-path", "transform-foreign-path", "Transform reported the path %#v, which names no member", p.Copy())
@@ -478,6 +497,7 @@ func simC19Walk(c *Ctx) {
 			},
 			exit: func(p cty.Path, v cty.Value) (cty.Value, error) {
 				key := renderPath(p)
+				kept = append(kept, keptPath{p.Copy(), key})
 				i, ok := byKey[key]
 				if !ok {
 					c.Fail("C19", "transform-foreign-path", "transform-foreign-path", "Transform reported the path %#v, which names no member", p.Copy())
@@ -511,6 +531,7 @@ func simC19Walk(c *Ctx) {
 			c.Fail("C19", "transform-spurious-error", "transform-spurious-error", "identity Transform returned %v", terr)
 		}
 		observe(c, res, "Transform")
+		checkKept("Transform")
 		if !sameModuloSetOrder(res, root) {
 			c.Fail("C19", "transform-identity-differs", "transform-identity:"+kindNames[d.T.K], "an identity transformation returned %s for %s", safeGoString(res), d)
 		}
